@@ -72,6 +72,19 @@ def _close(a, b, rtol, atol):
     return abs(a - b) <= atol + rtol * abs(b)
 
 
+def _selection(col, case, m, db, span, kwargs, out, info, tag="selection"):
+    """Requesting fewer outputs (return_=..., return_predict=False, ...) changes neither the returned values
+    nor the likelihood."""
+    sel = kc.return_kwargs(case)
+    if not sel:
+        return
+    out_s, info_s = api("kalman_filter_selected", m.kalman_filter, db, span, **kwargs, **sel)
+    a, b = float(info_s["neg_log_likelihood"]), float(info["neg_log_likelihood"])
+    col.check(_close(a, b, 1e-10, 1e-10), f"{tag}:nll", lambda: f"neg_log_likelihood {a!r} with {sel}, {b!r} with everything returned")
+    if out_s is not None:
+        kc.compare_selected(col, tag, out_s, out, span)
+
+
 def _check(case):
     col = Collector()
     spec = case["spec"]
@@ -119,6 +132,7 @@ def _check(case):
     if tvu or tvw:
         kwargs["stds_from_data"] = True
     out, info = api("kalman_filter", m.kalman_filter, db, span, **kwargs)
+    _selection(col, case, m, db, span, kwargs, out, info)
 
     # ---- likelihood ----------------------------------------------------------
     nll_ref, (n, logdet, quad) = full.nll()
@@ -248,7 +262,9 @@ def _check_unit_root(case):
     for dev in (False, True):
         levels, lin = c08._observed(spec, case, dev, ys)
         db = kc.input_databox(spec, dict(case, deviation=dev), start, levels)
-        out, info = api("kalman_filter", m.kalman_filter, db, span, return_info=True, deviation=dev, rescale_variance=case["rescale"])
+        kwargs = dict(return_info=True, deviation=dev, rescale_variance=case["rescale"])
+        out, info = api("kalman_filter", m.kalman_filter, db, span, **kwargs)
+        _selection(col, case, m, db, span, kwargs, out, info, tag="unit_root:selection")
         res[dev] = (out, info)
         contrib = np.asarray(info["neg_log_likelihood_contributions"].get_data(span))[:, 0]
         tot = float(info["neg_log_likelihood"])
@@ -281,6 +297,100 @@ def _check_unit_root(case):
     return {"labels": ["judged"], "nontrivial": True}
 
 
+# ---------------------------------------------------------------------------
+# Parameter variants: one run over a two-variant model against two singleton models
+# ---------------------------------------------------------------------------
+
+@st.composite
+def _variants_case(draw):
+    case = draw(kc.kalman_case())
+    n, nm = case["spec"]["n"], len(case["spec"]["meas"])
+    std = st.sampled_from([1.0, 0.5, 2.0, 1.3, 0.2, 3.0])
+    case["std_u2"] = [draw(std) for _ in range(n)]
+    case["std_w2"] = [draw(std) for _ in range(nm)]
+    case["pmul"] = draw(st.sampled_from([1.0, 1.0, 0.8, 1.2, 0.5]))
+    return case
+
+
+def _classify_variants(case):
+    nontrivial, labels = _classify(case)
+    labels = list(labels)
+    if case["pmul"] != 1.0 and case["spec"]["params"]:
+        labels.append("parameters_differ_across_variants")
+    if case["std_u2"] != case["std_u"]:
+        labels.append("transition_stds_differ_across_variants")
+    return True, labels
+
+
+def _check_variants(case):
+    """Variant v of one kalman_filter run over a two-variant model equals the run of a singleton model that the
+    harness builds from variant v's values (the singleton run itself is judged against exact conditioning above)."""
+    import copy
+    col = Collector()
+    spec2 = copy.deepcopy(case["spec"])
+    for p in spec2["params"]:
+        p["value"] = [p["value"], round(p["value"] * case["pmul"], 6)]
+    singles = []
+    for v in range(2):
+        sv = copy.deepcopy(case["spec"])
+        for p, p2 in zip(sv["params"], spec2["params"]):
+            p["value"] = p2["value"][v]
+        if not kc.in_domain(sv):
+            return {"labels": ["model_not_in_domain"], "nontrivial": False}
+        singles.append(sv)
+    N, dev = case["N"], case["deviation"]
+    start = sd.start_period(case["freq"])
+    span = start >> (start + N - 1)
+    cases = [case, dict(case, std_u=case["std_u2"], std_w=case["std_w2"])]
+    a0, a1 = kc.assigned_stds(singles[0], cases[0]), kc.assigned_stds(singles[1], cases[1])
+    m2 = api("build_and_solve_two_variants", lm.build_model, spec2, variant_count=2, stds={k: [a0[k], a1[k]] for k in a0})
+    levels, _ = kc.observed_values(singles[0], case)
+    db = kc.input_databox(singles[0], case, start, levels)
+    kwargs = dict(return_info=True, deviation=dev, rescale_variance=case["rescale"])
+    if any(kc.tv_dicts(singles[0], case)):
+        kwargs["stds_from_data"] = True
+    single_runs = []
+    for v in range(2):
+        m1 = api("build_and_solve", lm.build_model, singles[v], stds=(a0, a1)[v])
+        try:
+            single_runs.append(m1.kalman_filter(db, span, **kwargs))
+        except Exception:  # noqa: BLE001 - the singleton run is judged by the sub-check above (singular cases are excluded there)
+            return {"labels": ["singleton_run_raises"], "nontrivial": False}
+    out2, info2 = api("kalman_filter_two_variants", m2.kalman_filter, db, span, **kwargs)
+    col.check(isinstance(info2, (list, tuple)) and len(info2) == 2, "variants:info_count", lambda: f"info is {type(info2).__name__} of length {len(info2) if hasattr(info2, '__len__') else None}")
+    col.done()
+    for v in range(2):
+        out1, info1 = single_runs[v]
+        a, b = float(info2[v]["neg_log_likelihood"]), float(info1["neg_log_likelihood"])
+        if not (math.isfinite(a) and math.isfinite(b)):
+            return {"labels": ["non_finite_likelihood"], "nontrivial": False}
+        col.check(_close(a, b, 1e-9, 1e-9), "variants:nll", lambda: f"variant {v}: neg_log_likelihood {a!r} in the two-variant run, {b!r} for the singleton model\n{lm.source(singles[v])}")
+        col.check(_close(float(info2[v]["var_scale"]), float(info1["var_scale"]), 1e-9, 1e-12), "variants:var_scale",
+                  lambda: f"variant {v}: var_scale {info2[v]['var_scale']!r} vs {info1['var_scale']!r}")
+        c2 = np.asarray(info2[v]["neg_log_likelihood_contributions"].get_data(span), dtype=float).ravel()
+        c1 = np.asarray(info1["neg_log_likelihood_contributions"].get_data(span), dtype=float).ravel()
+        col.check(c2.shape == c1.shape and bool(np.allclose(c2, c1, rtol=1e-8, atol=1e-9, equal_nan=True)), "variants:nll_contributions",
+                  lambda: f"variant {v}: contributions {c2.tolist()} vs {c1.tolist()}")
+        for key in out1.keys():
+            if key == "predict_mse_obs":
+                for t, (x, y) in enumerate(zip(out2[key][v], out1[key][0])):
+                    x, y = np.asarray(x, dtype=float), np.asarray(y, dtype=float)
+                    col.check(x.shape == y.shape and bool(np.allclose(x, y, rtol=1e-8, atol=1e-10, equal_nan=True)), "variants:predict_mse_obs",
+                              lambda: f"variant {v} t={t}: {x.tolist()} vs {y.tolist()}")
+                continue
+            for name in out1[key].keys():
+                y = np.asarray(out1[key][name].get_data(span), dtype=float)[:, 0]
+                x_all = np.asarray(out2[key][name].get_data(span), dtype=float)
+                if not col.check(x_all.ndim == 2 and x_all.shape[1] == 2, f"variants:{key}:columns", lambda: f"{key}[{name}] has shape {x_all.shape}"):
+                    continue
+                x = x_all[:, v]
+                scale = max(1.0, float(np.nanmax(np.abs(y), initial=0.0)))
+                col.check(bool(np.allclose(x, y, rtol=1e-8, atol=1e-9 * scale, equal_nan=True)), f"variants:{key}",
+                          lambda: f"variant {v}: {key}[{name}] = {x.tolist()} in the two-variant run, {y.tolist()} for the singleton model\n{lm.source(singles[v])}")
+    col.done()
+    return {"labels": ["judged"], "nontrivial": True}
+
+
 def _unit_root_strategy():
     from checks import c08_smoother as c08
     return c08._unit_root_case()
@@ -289,4 +399,5 @@ def _unit_root_strategy():
 SUBCHECKS = [
     HypSub("kalman", kc.kalman_case, _check, _classify, budget={"quick": 1200, "thorough": 16000}),
     HypSub("kalman_unit_root", _unit_root_strategy, _check_unit_root, _classify, budget={"quick": 400, "thorough": 8000}),
+    HypSub("kalman_variants", _variants_case, _check_variants, _classify_variants, budget={"quick": 300, "thorough": 5000}),
 ]
